@@ -103,6 +103,46 @@ def impl_index(vaxes, cases):
 def _wire_subst(w, subst):
     return {w.name(k): w.wire(v) for k, v in subst.items()}
 
+def gen_refine_pair(rng):
+    """two patterns over dimensions of PRODUCT types (flat atom lists), every axis a grouping of consecutive atoms into
+    blocks; block axes are shared between the dimensions of a pattern (and sometimes between the two patterns).
+    Half of the pairs are of the shape BOUND-THEN-SPLIT: a block axis Q (atoms L) is a whole dimension of one pattern and
+    the last factor of another of its dimensions (atoms A ++ L); the other pattern groups A ++ L with a last block that is
+    a proper suffix of L.  With the dimensions in this order Q is bound by the first pair of the call and has to be split
+    THROUGH that binding by the second; the sides are swapped / the dimensions reversed (Q still unbound when split) /
+    a further dimension is added at random."""
+    if rng.random() < 0.5:
+        L = rng.choice([[2, 2], [2, 2], [2, 3], [3, 2], [2, 2, 2]])
+        A = rng.choice([[2], [2], [3], [2, 2]] if L == [2, 2] else [[2]])
+        ps, psh = rng.choice([0.3, 0.5, 0.7]), rng.choice([0.0, 0.3, 0.6])
+        pool = U.Pool()
+        Q = ("Phys", pool.fresh(U.blk_type(L)))
+        v1 = [Q, U.a_product([U.gen_refine_axis(A, pool, rng, ps, psh), Q])]
+        pool2 = U.Pool(30)
+        c = rng.randrange(1, len(L))
+        v2 = [U.gen_refine_axis(L, pool2, rng, ps, psh),
+              U.a_product([U.gen_refine_axis(A + L[:c], pool2, rng, ps, psh), ("Phys", pool2.fresh(U.blk_type(L[c:])))])]
+        if rng.random() < 0.3:
+            X = rng.choice([L, A, A + L])
+            k = rng.randrange(3)
+            v1.insert(k, U.gen_refine_axis(X, pool, rng, ps, psh)); v2.insert(k, U.gen_refine_axis(X, pool2, rng, ps, psh))
+        if rng.random() < 0.25: v1.reverse(); v2.reverse()
+        if rng.random() < 0.5: v1, v2 = v2, v1
+        return v1, v2
+    base = rng.choice(U.REFINE_BASES[:8] if rng.random() < 0.8 else U.REFINE_BASES)
+    lts = []
+    for _d in range(rng.choice([1, 2, 2, 2, 3])):
+        if rng.random() < 0.55:
+            i = rng.randrange(len(base)); j = rng.randint(i + 1, len(base)); lts.append(base[i:j])
+        else: lts.append(base)
+    rng.shuffle(lts)
+    ps, psh = rng.choice([0.3, 0.5, 0.7]), rng.choice([0.4, 0.6, 0.9])
+    pool = U.Pool()
+    v1 = [U.gen_refine_axis(l, pool, rng, ps, psh) for l in lts]
+    pool2 = pool if rng.random() < 0.25 else U.Pool(30)
+    v2 = [U.gen_refine_axis(l, pool2, rng, ps, psh) for l in lts]
+    return v1, v2
+
 def impl_unify(es, fs, typed):
     w = U.World(); eo = [w.build(e) for e in es]; fo = [w.build(f) for f in fs]
     nxt = w.max_uid() + 1
@@ -287,7 +327,13 @@ def axis_level(tier, seed, violations, cov, jobs):
         v1, pool = U.gen_pattern(ts, rng, pool)
         v2, pool = U.gen_pattern(ts, rng, pool if rng.random() < 0.3 else U.Pool(30))
         pairs.append((v1, v2))
+    # refinements (typed): the dimensions have PRODUCT types given as flat atom lists and every axis is a grouping of
+    # consecutive atoms into blocks (12 = 2x2x3 as 12 / 2*6 / 4*3 / 2*2*3), block axes shared between the dimensions of a
+    # pattern: unify_list meets factors that an EARLIER pair of the same call has already bound and must split them
+    # through the existing binding (branches m < n and m > n of the product loop on a non-empty substitution)
+    rpairs = [gen_refine_pair(rng) for _ in range(200 if quick else 5000)]
     pairs = [p for p in pairs if envs(p[0] + p[1]) <= ENVB]
+    pairs += [p for p in rpairs if envs(p[0] + p[1]) <= max(ENVB, 1000)]
     uvals, avals = [], []
     for es, fs in pairs:
         try: uvals.append(impl_unify(es, fs, True))
@@ -340,7 +386,8 @@ def axis_level(tier, seed, violations, cov, jobs):
     run(CLONE, cvals, "clone", lambda c: {1: "clone does not evaluate like the axis under the substitution", 10: "differs from model", 13: "model failed"}.get(c, "?"), "c06clone")
     run(PRODUCT, pvals, "productAxis", lambda c: {1: "not the product of the factors", 10: "differs from model"}.get(c, "?"), "c06prod")
     cov["axis_level"] = dict(cases=hist, single_axes_exhaustive=len(singles), two_dim_patterns_enumerated=n_exh_pats,
-                             same_type_axis_pairs_enumerated=n_exh_pairs, kernel_reevaluated=kern)
+                             same_type_axis_pairs_enumerated=n_exh_pairs, kernel_reevaluated=kern,
+                             unify_refinement_pairs=dict(generated=len(rpairs), rule="patterns over dimensions of product types (flat atom lists), every axis a grouping of consecutive atoms into one PhysicalAxis per block, block axes shared between dimensions; half of them BOUND-THEN-SPLIT: a block axis that an earlier pair of the same unify call has bound is the last factor of a later dimension and meets a product with a smaller last factor (sides swapped / dimensions reversed at random); judged by the brute-force coincidence oracle and compared with the model"))
     return sum(hist.values()), len({repr(v[:2]) for v in uvals if any(e[0] != "Phys" for e in v[0] + v[1])})
 
 def run_jobs(jobs, seed):
